@@ -151,7 +151,7 @@ Protected(sc, p) == SegAt(sc, p).k # "t"
 ClassOf(r, sc, p) ==
     LET c == r[p] IN
     IF c \in {"*", "_"} THEN (IF Protected(sc, p) THEN "." ELSE c)
-    ELSE IF c = " " THEN " "
+    ELSE IF c \in {" ", "\n"} THEN " "
     ELSE IF c \in NameCh THEN "a"
     ELSE "."
 Classes(r) == LET sc == Scan(r) IN [p \in 1..Len(r) |-> ClassOf(r, sc, p)]
@@ -188,12 +188,22 @@ EscS(s) == IF s = "" THEN "" ELSE LET c == SubSeq(s, 1, 1) IN
 Sub(r, a, b) == Flat(SubSeq(r, a, b))
 CodeContent(r, g) ==
     LET n == RunLen(r, g.s, "`")
-        c == Sub(r, g.s + n, g.e - n)
+        c == Flat([q \in 1..(g.e - g.s - 2 * n + 1) |-> IF r[g.s + n + q - 1] = "\n" THEN " " ELSE r[g.s + n + q - 1]])     \* (line endings are spaces)
         allsp == \A q \in 1..Len(c) : SubSeq(c, q, q) = " " IN
     IF Len(c) >= 2 /\ SubSeq(c, 1, 1) = " " /\ SubSeq(c, Len(c), Len(c)) = " " /\ ~allsp THEN SubSeq(c, 2, Len(c) - 1) ELSE c
+(* a character of ordinary text: spaces before a line end are dropped, two or more of them make the line end a hard break *)
+RECURSIVE SpacesToEol(_, _)
+SpacesToEol(r, p) == IF At(r, p) = " " THEN SpacesToEol(r, p + 1) ELSE At(r, p) = "\n"
+RECURSIVE TextSpacesBefore(_, _, _)
+TextSpacesBefore(r, sc, p) == IF p >= 1 /\ r[p] = " " /\ SegAt(sc, p).k = "t" THEN 1 + TextSpacesBefore(r, sc, p - 1) ELSE 0
+TextCh(r, sc, p) ==
+    IF r[p] = " " /\ SpacesToEol(r, p) THEN ""
+    ELSE IF r[p] = "\\" /\ At(r, p + 1) = "\n" THEN ""                  \* (a backslash that the scan left as text is not escaped itself)
+    ELSE IF r[p] = "\n" THEN (IF TextSpacesBefore(r, sc, p - 1) >= 2 \/ (At(r, p - 1) = "\\" /\ SegAt(sc, p - 1).k = "t") THEN "<br />\n" ELSE "\n")
+    ELSE EscS(r[p])
 RenderPos(r, sc, p) ==
     LET g == SegAt(sc, p) IN
-    CASE g.k = "t"    -> EscS(r[p])
+    CASE g.k = "t"    -> TextCh(r, sc, p)
       [] g.k = "esc"  -> IF p = g.s THEN "" ELSE EscS(r[p])
       [] g.k = "code" -> IF p = g.s THEN "<code>" \o EscS(CodeContent(r, g)) \o "</code>" ELSE ""
       [] g.k = "ent"  -> IF p = g.s THEN EscS(EntityText(r, g)) ELSE ""
